@@ -19,7 +19,7 @@ func TestRAC_C12(t *testing.T) {
 	if res.thorough() {
 		rounds = 600
 	}
-	for _, cfg := range []mapCfg{{true, 63}, {true, 0}, {false, 63}} {
+	for _, cfg := range []mapCfg{{Full: true, TotalRows: 63}, {Full: true, TotalRows: 0}, {Full: false, TotalRows: 63}} {
 		m := NewMapPollard(cfg.Full)
 		m.TotalRows = cfg.TotalRows
 		spec := newSpecForest()
